@@ -1820,7 +1820,11 @@ class slate_BradleyTerry(BallotGenerator):
             for j1 in np.random.choice(len(seed_ballot_type) - 1, size=num_ballots)
         ]
 
-        odds = (1 - cohesion) / cohesion
+        # Metropolis ratios pi(proposed)/pi(current): moving a candidate of the voter's bloc
+        # below an opposing candidate multiplies the probability by (1-cohesion)/cohesion,
+        # moving it above one by the inverse.
+        down_prob = min(1, (1 - cohesion) / cohesion) if cohesion > 0 else 1
+        up_prob = min(1, cohesion / (1 - cohesion)) if cohesion < 1 else 1
         # generate MCMC sample
         for i in range(num_ballots):
             # choose adjacent pair to propose a swap
@@ -1831,9 +1835,13 @@ class slate_BradleyTerry(BallotGenerator):
                 current_ranking[j1] != current_ranking[j2]
                 and current_ranking[j1] == bloc
             ):
-                acceptance_prob = odds
+                acceptance_prob = down_prob
 
-            # if swap increases number of voters bloc above opposing or swaps two of same bloc
+            # if swap increases number of voters bloc above opposing bloc
+            elif current_ranking[j1] != current_ranking[j2]:
+                acceptance_prob = up_prob
+
+            # if swap exchanges two candidates of the same bloc
             else:
                 acceptance_prob = 1
 
